@@ -69,6 +69,7 @@ class SFloat:
     _symx_ = True
 
     def __init__(self, e):
+        Ctx.cur.need_fp()
         self.e = e
 
     @staticmethod
@@ -295,6 +296,7 @@ def unpack_float(f, data, order='>'):
 def float64(ctx, name, finite=True):
     if ctx.mode == 'conc':
         return bits_to_float(ctx._val(name))
+    ctx.need_fp()
     e = z3.FP(name, D)
     ctx.inputs.append((name, 'f64', e, None))
     if finite:
@@ -306,6 +308,7 @@ def float32(ctx, name, finite=True):
     """a Python float that is exactly a binary32 value"""
     if ctx.mode == 'conc':
         return bits_to_float(ctx._val(name), 'f')
+    ctx.need_fp()
     e = z3.FP(name, S)
     ctx.inputs.append((name, 'f32', e, None))
     if finite:
